@@ -437,6 +437,9 @@ def check_cc(text, g, symtypes, counters):
 
     def walk(t, e, at):
         """at = index of the statement whose right-hand side is being walked (len(decls) for the return)"""
+        if e.kind == "positive" and not (isinstance(t, P.Name) and ((t.name in decl and t.name not in bound) or bound.get(t.name) is e)):
+            # the XLA-client template of unary plus is the identity "({0})": the text of +x is the text of x
+            return walk(t, e.operands[0], at)
         if isinstance(t, P.Name):
             nm = t.name
             if nm in bound:
@@ -678,6 +681,8 @@ def run(ctx):
     n = 700 if ctx.quick else 8000
     tasks = [(ctx.seed, s, n, ctx.known, t) for t in ("stablehlo", "xla_client") for s in range(8)]
     ctx.pmap(_gen_shard, tasks)
+    for t in ("stablehlo", "xla_client"):
+        ctx.merge(kind_probe(t))
     from harness import fuzz
 
     fuzz.campaign(ctx, "C06", ["stablehlo", "xla_client"], runs=800 if ctx.quick else 40000, workers=8 if ctx.quick else 16)
@@ -686,3 +691,55 @@ def run(ctx):
 # ---- coverage-guided tier (harness/fuzz.py)
 def fuzz_strategy(variant):
     return gen_cases(variant)
+
+
+# ---- per-kind probe: every operator of the tables once per operand sort (the random strategy draws only a subset of
+# the transcendental / predicate kinds; shipped units use some of the others)
+PROBE_UNARY = ["absolute", "negative", "positive", "sign", "sqrt", "square", "exp", "expm1", "log", "log1p", "log2", "log10", "sin", "cos", "tan", "sinh", "cosh", "tanh", "asin", "acos", "atan", "asinh", "acosh", "atanh", "ceil", "floor", "round", "real", "imag", "conjugate"]
+PROBE_PRED = ["is_finite", "is_inf", "is_posinf", "is_neginf", "is_nan", "is_negzero"]
+PROBE_BINARY = ["add", "subtract", "multiply", "divide", "remainder", "pow", "maximum", "minimum", "atan2", "nextafter", "hypot", "complex"]
+PROBE_CMP = ["lt", "le", "gt", "ge", "eq", "ne"]
+
+
+def probe_specs():
+    syms = [["x", "float"], ["y", "float"], ["w", "complex"]]
+    base = [["sym", 0], ["sym", 1], ["sym", 2]]
+    out = []
+    for k in PROBE_UNARY:
+        for a in (0, 2):
+            out.append((k, {"syms": syms, "nodes": base + [[k, a]], "root": 3}))
+            out.append((k, {"syms": syms, "nodes": base + [[k, a], ["add", 3, a]], "root": 4}))
+    for k in PROBE_PRED:
+        for a in (0,):
+            out.append((k, {"syms": syms, "nodes": base + [[k, a], ["select", 3, 0, 1]], "root": 4}))
+    for k in PROBE_BINARY:
+        for a, b in ((0, 1), (1, 0)) + (((2, 2),) if k in ("add", "subtract", "multiply", "divide") else ()):
+            out.append((k, {"syms": syms, "nodes": base + [[k, a, b]], "root": 3}))
+    for k in PROBE_CMP:
+        out.append((k, {"syms": syms, "nodes": base + [[k, 0, 1], ["select", 3, 0, 1]], "root": 4}))
+        out.append((k, {"syms": syms, "nodes": base + [[k, 1, 0], ["logical_not", 3], ["select", 4, 1, 0]], "root": 5}))
+    for k in ("logical_and", "logical_or", "logical_xor"):
+        out.append((k, {"syms": syms, "nodes": base + [["lt", 0, 1], ["ge", 1, 0], [k, 3, 4], ["select", 5, 0, 1]], "root": 6}))
+        out.append((k, {"syms": syms, "nodes": base + [["lt", 0, 1], ["ge", 1, 0], [k, 4, 3], ["select", 5, 0, 1]], "root": 6}))
+    return out
+
+
+def kind_probe(target):
+    p = Partial()
+    for k, spec in probe_specs():
+        try:
+            progs.build(spec)
+        except Exception:
+            p.count(1, "kind-probe/%s/not-buildable" % target)  # the probe's guess of the operand sorts was wrong
+            continue
+        for rw in (False, True):
+            case = {"target": target, "spec": spec, "refs": {}, "rewrite": rw}
+            bad, info, counters = check_case(case)
+            if info is None and not bad:
+                p.count(1, "kind-probe/%s/rejected-by-target" % target)
+                continue
+            p.count(1, "kind-probe/%s" % target)
+            p.nontrivial(("kind-probe", target, k, spec["nodes"][3:], rw))
+            for cls, what in bad:
+                p.violation(cls, "kind probe %s: %s" % (k, what), case)
+    return p
